@@ -1293,6 +1293,23 @@ func funcFlowRows(repo, rel, recv, name string) []string {
 					add("case", lbl, ext(path, fmt.Sprintf("s%d:c%d", k, j)))
 					walk(cc.Body, ext(path, fmt.Sprintf("s%d:c%d", k, j)))
 				}
+			case *ast.TypeSwitchStmt:
+				counter++
+				k := counter
+				add("typeswitch", srcText(t.Assign), ext(path, fmt.Sprintf("s%d:", k)))
+				for j, c := range t.Body.List {
+					cc := c.(*ast.CaseClause)
+					var es []string
+					for _, e := range cc.List {
+						es = append(es, srcText(e))
+					}
+					lbl := "default"
+					if len(es) > 0 {
+						lbl = strings.Join(es, ", ")
+					}
+					add("case", lbl, ext(path, fmt.Sprintf("s%d:c%d", k, j)))
+					walk(cc.Body, ext(path, fmt.Sprintf("s%d:c%d", k, j)))
+				}
 			case *ast.ForStmt:
 				counter++
 				hdr := ""
@@ -1406,6 +1423,10 @@ func otherFlows(repo string) {
 		{rg, "refGroup", "collectSymbols"}, {rg, "refGroup", "augmentFromConfig"}})
 	flowsOf(repo, "footnoteFlows", "sizes/footnotes.go", [][3]string{
 		{"sizes/footnotes.go", "Footnotes", "CreateCitation"}, {"sizes/footnotes.go", "Footnotes", "String"}})
+	gg := "git/git.go"
+	flowsOf(repo, "repoFlows", "repository discovery and command construction of git/git.go", [][3]string{
+		{gg, "", "smartJoin"}, {gg, "", "NewRepositoryFromGitDir"}, {gg, "", "NewRepositoryFromPath"}, {gg, "Repository", "IsFull"},
+		{gg, "Repository", "GitCommand"}, {gg, "Repository", "GitPath"}})
 	flowsOf(repo, "meterFlows", "the progress meter of meter/meter.go", [][3]string{
 		{"meter/meter.go", "progressMeter", "Start"}, {"meter/meter.go", "progressMeter", "Inc"}, {"meter/meter.go", "progressMeter", "Add"}, {"meter/meter.go", "progressMeter", "Done"}})
 }
